@@ -84,6 +84,14 @@ func fingerprint(w world.World, run *world.Run) (*Fingerprint, error) {
 		}
 	}
 	for _, pkg := range b.RegistryPackages() {
+		// the version list of one bundle object is the same list every time it is asked for
+		first := fmt.Sprint(b.RegistryPackageVersions(pkg))
+		for i := 0; i < 12; i++ {
+			if again := fmt.Sprint(b.RegistryPackageVersions(pkg)); again != first {
+				return nil, fmt.Errorf("RegistryPackageVersions(%s) answered %s and then %s for the same bundle object", pkg, first, again)
+			}
+		}
+		fp.Lookups["versions:"+pkg.String()] = first
 		for _, v := range b.RegistryPackageVersions(pkg) {
 			src, _ := b.RegistryPackageSourceAddr(pkg, v)
 			dep := b.RegistryPackageVersionDeprecation(pkg, v)
@@ -410,7 +418,19 @@ func checkConcurrent(c ConcCase) error {
 }
 
 func genWorld(t *rapid.T) world.World {
-	return world.Gen(t, world.Config{MaxRemotes: 4, MaxRegistry: 2, NFinders: nFinders, Clones: true, Meta: true})
+	w := world.Gen(t, world.Config{MaxRemotes: 4, MaxRegistry: 2, NFinders: nFinders, Clones: true, Meta: true})
+	if len(w.Registry) > 0 && len(w.Registry[0].Versions) > 0 && rapid.IntRange(0, 3).Draw(t, "twins?") == 0 {
+		// three versions of equal precedence (build metadata only), each pinned by its own Add call
+		real := w.Registry[0].Versions[0].Real
+		for _, m := range []string{"+b", "+a", "+c"} {
+			w.Registry[0].Versions = append(w.Registry[0].Versions, world.RegVersion{V: "7.0.0" + m, Real: real})
+			w.Script = append(w.Script, world.AddCall{Kind: "final", Addr: w.Registry[0].Addr, Version: "7.0.0" + m})
+		}
+		if len(w.Script) > 4 {
+			w.Script = w.Script[len(w.Script)-4:]
+		}
+	}
+	return w
 }
 
 func TestPropOrder(t *testing.T) { ev.Check(t, subOrder, genWorld) }
